@@ -118,7 +118,8 @@ Definition run_approx_pw (kabs krel : bexpr) (a b : list (list Z)) (eps rel : Z)
     same && forallb (fun p => beval FOps0 (map of_bits (fst p ++ snd p ++ extra)) k) (combine a b) in
   let eqs := same && forallb (fun p => Nat.eqb (length (fst p)) (length (snd p)) &&
                                        forallb (fun q => feq (of_bits (fst q)) (of_bits (snd q))) (combine (fst p) (snd p))) (combine a b) in
-  [b2z (sl kabs [eps]); b2z (sl krel [eps; rel]); b2z eqs].
+  let self (k : bexpr) (extra : list Z) := forallb (fun p => beval FOps0 (map of_bits (p ++ p ++ extra)) k) a in
+  [b2z (sl kabs [eps]); b2z (sl krel [eps; rel]); b2z eqs; b2z (self kabs [eps]); b2z (self krel [eps; rel])].
 Definition run_approx_polyn (a b : list Z) (eps rel : Z) : list Z :=
   let same := Nat.eqb (length a) (length b) in
   let prs := combine (map of_bits a) (map of_bits b) in
